@@ -85,7 +85,8 @@ class Check(PropertyCheck):
     LEAN_MODULE = "JobShopProofs.Properties.C16All"
     THEOREMS = ["JS.C16_nodes", "JS.C16_conjunctive_typed", "JS.C16_solved_acyclic", "JS.C16_path_le_makespan", "JS.C16_critical_path",
                 "JS.C16_disjunctive_edges", "JS.C16_agentTask_edges", "JS.C16_agentTaskJobs_edges", "JS.C16_completeAgentTask_edges",
-                "JS.C16_edges_nodup", "JS.C16_edge_type_unique"]
+                "JS.C16_edges_nodup", "JS.C16_edge_type_unique",
+                "JS.C16_solved_edges", "JS.C16_solved_nodes", "JS.C16_solved_no_loop", "JS.C16_solved_edges_nodup"]
     RULE = ("every instance family (irregular, recirculation, flexible, unused machine ids, zero durations) x the four "
             "graph builders: node list and typed edge list (in DiGraph iteration order) of the real graph compared with the "
             "Lean model and, as sets, with the edges the documentation prescribes recomputed from the instance; then a random "
